@@ -263,7 +263,17 @@ pub fn worker(ctx: &mut Ctx) {
                 if let Some(same) = l2.iter().find(|x| x.span.start == ns && x.span.end == ne && x.message == l.message && x.lint_kind == l.lint_kind) {
                     let id2 = identity(same, &d2);
                     if differs(&id2, &ids[*i]).is_none() {
-                        let q = if ids[*i].quote_in_context { "quote-in-context" } else { "no-quote" };
+                        // the context hash looks at start+2..start+4 instead of end..end+2: an appended
+                        // paragraph can fall into that misplaced window although it is not within two
+                        // characters of the lint
+                        let misplaced_window = ename == "append-paragraph" && l.span.start + 4 > src.len() && l.span.end + 2 <= src.len();
+                        let q = if ids[*i].quote_in_context {
+                            "quote-in-context"
+                        } else if misplaced_window {
+                            "misplaced-sequel-window"
+                        } else {
+                            "no-quote"
+                        };
                         ctx.report.finding("C14", &format!("reappears@{ename}/{q}"), text.len(), || json!({"text": text, "edited": etext, "lint": [l.span.start, l.span.end], "message": l.message}), || {
                             format!("ignored lint {:?} on {:?} is reported again after the edit '{ename}' although its neighbourhood is unchanged", l.message, ids[*i].flagged)
                         });
